@@ -352,6 +352,25 @@ fn replace_strings(v: &mut Value, pool: &[String], i: &mut usize) {
     }
 }
 
+fn collect_index_keys(t: &tsmodel::Ty, out: &mut Vec<tsmodel::Ty>) {
+    use tsmodel::Ty::*;
+    match t {
+        Array(x) => collect_index_keys(x, out),
+        Tuple(xs) | Union(xs) | Inter(xs) => xs.iter().for_each(|x| collect_index_keys(x, out)),
+        Ref(_, args) => args.iter().for_each(|x| collect_index_keys(x, out)),
+        Object(o) => {
+            for p in &o.props {
+                collect_index_keys(&p.ty, out);
+            }
+            for i in &o.index {
+                out.push(i.key.clone());
+                collect_index_keys(&i.val, out);
+            }
+        }
+        _ => {}
+    }
+}
+
 pub fn c12(args: &Args, log: &mut Log) {
     let env = env_for(log);
     for e in table(args.thorough()) {
@@ -397,6 +416,29 @@ pub fn c12(args: &Args, log: &mut Log) {
                     Ok(None) => {}
                     Ok(Some((w, f))) => fails.push(json!({"kind": "name-and-inline-differ", "value": w, "path": f.path,
                         "reason": format!("a value of {from}() = {:?} is not a value of {to}() = {:?}: {}", e.name.as_ref().ok(), e.inline.as_ref().ok(), f.reason)})),
+                    Err(_) => {}
+                }
+            }
+        }
+        // the key type of a keyed object must be something TypeScript can index with (string / number / literals of those):
+        // `{ [key in bigint]?: V }` or `{ [key in boolean]?: V }` is rejected by the TypeScript compiler
+        if let Ok(nt) = &name_ty {
+            let mut keys = vec![];
+            collect_index_keys(nt, &mut keys);
+            for k in keys {
+                checked += 1;
+                match env.alts(&k) {
+                    Ok(shapes) => {
+                        let bad: Vec<String> = shapes
+                            .iter()
+                            .filter(|s| !matches!(s, tsmodel::Shape::Str | tsmodel::Shape::Number | tsmodel::Shape::LitStr(_) | tsmodel::Shape::LitNum(_) | tsmodel::Shape::Any))
+                            .map(|s| format!("{s:?}").chars().take(24).collect())
+                            .collect();
+                        if !bad.is_empty() {
+                            fails.push(json!({"kind": "index-key-not-a-property-key",
+                                "reason": format!("a keyed object is indexed by a type TypeScript cannot use as a property key: {bad:?}")}));
+                        }
+                    }
                     Err(_) => {}
                 }
             }
